@@ -233,6 +233,44 @@ def bounded(ctx, b):
                         "expected_marked_characters": ["".join(c for c, f in x if f and any(f)) for x in e2], "doc": doc[-700:]}
                 b.guard((label, i), opt, sample={"path": label})
 
+            # captions shown at the same time are merged by the legacy / single-position writers: the marking of each
+            # survives the merge (a caption may END with a span), and the markup stays balanced
+            same = [gen_caption(rng, 2 * 10 ** 6) for _ in range(rng.choice([2, 3]))]
+            if rng.random() < 0.7:
+                same[0].nodes += [T(" "), ST(True, {"italics": True}), T("closer"), ST(False, {"italics": True})]
+            cs_s = CaptionSet({"en-US": CaptionList(same + [gen_caption(rng, 9 * 10 ** 6)])})
+            want_s = [sum((strip_breaks(only(flags_of_nodes(c_.nodes)[0], ("italics",))) for c_ in same), []),
+                      strip_breaks(only(flags_of_nodes(cs_s.get_captions("en-US")[-1].nodes)[0], ("italics",)))]
+            for label, Wm in (("dfxp(single positioning, simultaneous captions)->dfxp", SinglePositioningDFXPWriter), ("dfxp(legacy, simultaneous captions)->dfxp", LegacyDFXPWriter)):
+                def merged(label=label, Wm=Wm, cs_s=cs_s, want_s=want_s):
+                    doc = Wm().write(cs_s)
+                    got = [flags_of_nodes(c_.nodes) for c_ in DFXPReader().read(doc).get_captions("en-US")]
+                    g2 = [strip_breaks(only(fl, ("italics",))) for fl, _ in got]
+                    return g2 == want_s and all(bal for _, bal in got) and doc.count("<span") == doc.count("</span>"), {
+                        "path": label, "got": ["".join(c for c, f in x if f and any(f)) for x in g2],
+                        "expected_marked_characters": ["".join(c for c, f in x if f and any(f)) for x in want_s], "doc": doc[-700:]}
+                b.guard((label, i), merged, sample={"path": label})
+            # a caption that lies, with all its nodes, in one layout at the very corner of the screen (origin 0% 0%)
+            from pycaption.geometry import Layout, Point, Size, UnitEnum
+            corner = Layout(origin=Point(Size(0, UnitEnum.PERCENT), Size(0, UnitEnum.PERCENT)))
+            caps_c = [gen_caption(rng, (j + 1) * 2 * 10 ** 6) for j in range(2)]
+            for c_ in caps_c:
+                c_.layout_info = corner
+                for n_ in c_.nodes:
+                    n_.layout_info = Layout(origin=Point(Size(0, UnitEnum.PERCENT), Size(0, UnitEnum.PERCENT)))
+            cs_c = CaptionSet({"en-US": CaptionList(caps_c)})
+            orig_c = [flags_of_nodes(c_.nodes) for c_ in caps_c]
+
+            def vtt_corner(cs_c=cs_c, orig_c=orig_c):
+                doc = shared(WebVTTWriter).write(cs_c)
+                got = webvtt_flags(doc)
+                if not all(ok for _, ok in got):
+                    return False, {"path": "webvtt", "tags_not_balanced_or_nested": doc[-400:]}
+                g2 = [strip_breaks(fl) for fl, _ in got]
+                e2 = [strip_breaks(fl) for fl, _ in orig_c]
+                return g2 == e2, {"path": "webvtt", "cues": len(g2), "captions": len(e2), "doc": doc[-400:]}
+            b.guard(("webvtt-corner", i), vtt_corner, sample={"path": "->webvtt", "layout": "origin 0% 0% on the caption and every node"})
+
         def cross(label, W1, R1, lang1, W2, R2, lang2, keep):
             def one():
                 mid = shared(R1).read(shared(W1).write(cs))
